@@ -26,6 +26,7 @@ type c17Snap struct {
 	perValComm map[string]sdk.DecCoins // validator accumulated commission
 	valPower   map[string]int64        // operator -> power in the stored validator set
 	rate       map[string]sdkmath.LegacyDec
+	hasKey     map[string]bool // operator currently has a consensus key for this chain (the allocation's second lookup)
 	totalPower int64
 	tax        sdkmath.LegacyDec
 }
@@ -39,6 +40,7 @@ type c17Monitor struct {
 	NonZero   int
 	ZeroPower int
 	PerValChecked int
+	SkippedNoKey  int
 	stakerIDs map[string]bool
 }
 
@@ -46,7 +48,7 @@ func (m *c17Monitor) Name() string { return "supply-and-fees" }
 
 func (m *c17Monitor) snap(r *Run, ctx sdk.Context) *c17Snap {
 	app := r.Node.App
-	s := &c17Snap{perVal: map[string]sdk.DecCoins{}, perValComm: map[string]sdk.DecCoins{}, valPower: map[string]int64{}, rate: map[string]sdkmath.LegacyDec{}}
+	s := &c17Snap{perVal: map[string]sdk.DecCoins{}, perValComm: map[string]sdk.DecCoins{}, valPower: map[string]int64{}, rate: map[string]sdkmath.LegacyDec{}, hasKey: map[string]bool{}}
 	s.totalPower = app.StakingKeeper.GetLastTotalPower(ctx).Int64()
 	s.tax = sdkmath.LegacyZeroDec()
 	if t, err := app.DistrKeeper.GetCommunityTax(ctx); err == nil {
@@ -68,6 +70,9 @@ func (m *c17Monitor) snap(r *Run, ctx sdk.Context) *c17Snap {
 		comm := app.DistrKeeper.GetValidatorAccumulatedCommission(ctx, va).Commission
 		s.commission = s.commission.Add(comm...)
 		s.perValComm[o.Addr.String()] = comm
+		if found, _, err := app.OperatorKeeper.GetOperatorConsKeyForChainID(ctx, o.Addr, r.W.ChainIDNoRev); found && err == nil {
+			s.hasKey[o.Addr.String()] = true
+		}
 		if info, err := app.OperatorKeeper.OperatorInfo(ctx, o.Addr.String()); err == nil && info != nil {
 			s.rate[o.Addr.String()] = info.Commission.Rate
 		}
@@ -201,11 +206,22 @@ func (m *c17Monitor) AfterBeginBlock(r *Run, ctx sdk.Context) {
 			portion := ratOf(decAmt(cur.perVal[a], m.denom).Sub(decAmt(m.prev.perVal[a], m.denom)))
 			comm := ratOf(decAmt(cur.perValComm[a], m.denom).Sub(decAmt(m.prev.perValComm[a], m.denom)))
 			pw := m.prev.valPower[a]
-			if portion.Sign() == 0 && comm.Sign() == 0 {
-				continue // a validator the distribution skipped (or without power) gets nothing; its share stays in the community pool
-			}
 			want := new(big.Rat).Mul(F, oneMinusTax)
 			want.Mul(want, big.NewRat(pw, m.prev.totalPower))
+			if portion.Sign() == 0 && comm.Sign() == 0 {
+				// a validator without power gets nothing. one WITH power may only be passed over when the
+				// allocation cannot resolve it (operator left without a consensus key while its validator
+				// is still in the stored set, see K7c); its share then stays in the community pool
+				if pw > 0 && want.Cmp(tol) > 0 {
+					if m.prev.hasKey[a] {
+						r.Violate(m.Name(), "validator-portion-proportional-to-voting-power", "nothing-allocated", fmt.Sprintf("height %d: validator %s (power %d of %d, tax %s, resolvable by consensus address and key) was allocated nothing of the %s moved, proportional share %s", h, a, pw, m.prev.totalPower, m.prev.tax, moved, want.FloatString(18)))
+						return
+					}
+					m.SkippedNoKey++
+					r.Probe("c17_validator_with_power_unresolvable_skipped")
+				}
+				continue
+			}
 			if d := new(big.Rat).Sub(portion, want); d.Abs(d).Cmp(tol) > 0 {
 				r.Violate(m.Name(), "validator-portion-proportional-to-voting-power", "portion", fmt.Sprintf("height %d: validator %s (power %d of %d, tax %s) was allocated %s of the %s moved, proportional share %s", h, a, pw, m.prev.totalPower, m.prev.tax, portion.FloatString(18), moved, want.FloatString(18)))
 				return
@@ -220,6 +236,7 @@ func (m *c17Monitor) AfterBeginBlock(r *Run, ctx sdk.Context) {
 				return
 			}
 			m.PerValChecked++
+			r.Probe("c17_validator_portion_checked")
 		}
 	}
 	m.claimsWithinBalance(r, cur, fmt.Sprintf("height %d begin-block", h))
